@@ -75,6 +75,26 @@ class PersistenceLandscaper(BaseEstimator, TransformerMixin):
         self.num_steps = num_steps
         self.flatten = flatten
 
+    # `start` and `stop` assigned by the user (constructor, attribute assignment or `set_params`)
+    # are kept by `fit`; values that an earlier `fit` determined from its data are recomputed.
+    @property
+    def start(self):
+        return self._start
+
+    @start.setter
+    def start(self, value):
+        self._start = value
+        self._start_fixed = value is not None
+
+    @property
+    def stop(self):
+        return self._stop
+
+    @stop.setter
+    def stop(self, value):
+        self._stop = value
+        self._stop_fixed = value is not None
+
     def __repr__(self):
         if self.start is None or self.stop is None:
             return f"PersistenceLandscaper(hom_deg={self.hom_deg}, num_steps={self.num_steps})"
@@ -94,10 +114,10 @@ class PersistenceLandscaper(BaseEstimator, TransformerMixin):
         """
         # TODO: remove infinities
         _dgm = X[self.hom_deg]
-        if self.start is None:
-            self.start = min(_dgm, key=itemgetter(0))[0]
-        if self.stop is None:
-            self.stop = max(_dgm, key=itemgetter(1))[1]
+        if not self._start_fixed:
+            self._start = min(_dgm, key=itemgetter(0))[0]
+        if not self._stop_fixed:
+            self._stop = max(_dgm, key=itemgetter(1))[1]
         return self
 
     def transform(self, X: np.ndarray, y=None):
